@@ -50,3 +50,48 @@ func Harness_C03_unique_roundtrip_exact() {
 	// arbitrary wire bytes of an item: the reader stores what the writer would write back
 	v.Reach("C03.unique.end")
 }
+
+// Growth of the exact-mode hash table (16 -> 32 slots, the step every row with more than 8 distinct
+// values takes) from an arbitrary collision layout: two (deep: three) arbitrary distinct non-zero 32-bit
+// hashes (any slots, so chains may collide and wrap around the end of the table) are inserted first, then
+// seven (six) fixed hashes; the ninth insert doubles the table. Afterwards the sketch holds exactly 9 items, every
+// hash is found again (a second contribution repeating any of them changes nothing), so the state
+// written for the row still estimates exactly the number of distinct values.
+func Harness_C03_unique_growth()      { c03Growth(2) }
+func Harness_C03_unique_growth_deep() { c03Growth(3) }
+
+func c03Growth(nsym int) {
+	var u ChUnique
+	u.Reset()
+	var all []uint32
+	for i := 0; i < nsym; i++ {
+		x := v.NondetU32()
+		v.Assume(x != 0)
+		for _, y := range all {
+			v.Assume(x != y)
+		}
+		all = append(all, x)
+	}
+	for k := uint32(0); k < uint32(9-nsym); k++ {
+		f := (k+2)<<uniquesHashBitsForSkip | 1
+		for _, y := range all[:nsym] {
+			v.Assume(f != y)
+		}
+		all = append(all, f)
+	}
+	for _, x := range all {
+		u.insertHash(x)
+	}
+	v.Assert("C03.unique.growth.table_doubled", u.sizeDegree == uniquesHashSetInitialSizeDegree+1 && len(u.buf) == 32)
+	v.Assert("C03.unique.growth.count_is_distinct_count", u.ItemsCount() == 9 && u.Size(false) == 9)
+	stored := 0
+	for _, c := range u.buf {
+		stored += v.B2I(c != 0)
+	}
+	v.Assert("C03.unique.growth.nine_cells_used", stored == 9)
+	for _, x := range all {
+		u.insertHash(x)
+	}
+	v.Assert("C03.unique.growth.repeated_values_are_found", u.ItemsCount() == 9 && u.sizeDegree == uniquesHashSetInitialSizeDegree+1)
+	v.Reach("C03.unique.growth.done")
+}
